@@ -19,13 +19,14 @@ VARIABLES l,          \* next line of the log
           mustInline, \* [Cbs -> BOOLEAN] a request_stop() had returned before registration began
           owed,       \* [thread -> set of callbacks registered before this thread's request began]
           qTrue,      \* a stop_requested() sample has returned true
+          unsub,      \* "none" | "begun" | "ended": the token adapter's unsubscribe() (deregistration of the forwarding callback)
           fused       \* this execution requests stop through upstream sources of a fused source / token adapter:
                       \* request_stop()'s return value on the monitored source is then not observable (r = -1)
-vars == <<l, phase, owner, execCount, execOpenBy, reqOpen, reqBegun, reqEnded, falseSeen, mustInline, owed, qTrue, fused>>
+vars == <<l, phase, owner, execCount, execOpenBy, reqOpen, reqBegun, reqEnded, falseSeen, mustInline, owed, qTrue, fused, unsub>>
 Fresh == /\ phase = [c \in Cbs |-> "none"] /\ owner = [c \in Cbs |-> 0]
          /\ execCount = [c \in Cbs |-> 0] /\ execOpenBy = [c \in Cbs |-> 0]
          /\ reqOpen = [t \in Thr |-> 0] /\ reqBegun = FALSE /\ reqEnded = FALSE /\ falseSeen = FALSE
-         /\ mustInline = [c \in Cbs |-> FALSE] /\ owed = [t \in Thr |-> {}] /\ qTrue = FALSE /\ fused = FALSE
+         /\ mustInline = [c \in Cbs |-> FALSE] /\ owed = [t \in Thr |-> {}] /\ qTrue = FALSE /\ fused = FALSE /\ unsub = "none"
 Init == l = 1 /\ Fresh /\ TrackInit
 E == Log[l]
 Is(e) == l <= Len(Log) /\ E.e = e /\ l' = l + 1
@@ -39,39 +40,40 @@ Reset == /\ Is("Reset") /\ Closed
          /\ execCount' = [c \in Cbs |-> 0] /\ execOpenBy' = [c \in Cbs |-> 0]
          /\ reqOpen' = [t \in Thr |-> 0] /\ reqBegun' = FALSE /\ reqEnded' = FALSE /\ falseSeen' = FALSE
          /\ mustInline' = [c \in Cbs |-> FALSE] /\ owed' = [t \in Thr |-> {}] /\ qTrue' = FALSE
-         /\ fused' = (E.fused = 1)
+         /\ fused' = (E.fused = 1) /\ unsub' = "none"
 RegBegin == /\ Is("RegBegin") /\ phase[E.c] = "none"
             /\ phase' = [phase EXCEPT ![E.c] = "registering"] /\ owner' = [owner EXCEPT ![E.c] = E.t]
             /\ mustInline' = [mustInline EXCEPT ![E.c] = reqEnded]
-            /\ UNCHANGED <<execCount, execOpenBy, reqOpen, reqBegun, reqEnded, falseSeen, owed, qTrue, fused>>
+            /\ UNCHANGED <<execCount, execOpenBy, reqOpen, reqBegun, reqEnded, falseSeen, owed, qTrue, fused, unsub>>
 RegEnd == /\ Is("RegEnd") /\ phase[E.c] = "registering" /\ owner[E.c] = E.t
           /\ mustInline[E.c] => execCount[E.c] = 1            \* late registration ran inline
           /\ execOpenBy[E.c] # E.t                              \* an inline execution has returned
           /\ phase' = [phase EXCEPT ![E.c] = "registered"]
-          /\ UNCHANGED <<owner, execCount, execOpenBy, reqOpen, reqBegun, reqEnded, falseSeen, mustInline, owed, qTrue, fused>>
+          /\ UNCHANGED <<owner, execCount, execOpenBy, reqOpen, reqBegun, reqEnded, falseSeen, mustInline, owed, qTrue, fused, unsub>>
 ExecBegin == /\ Is("ExecBegin")
              /\ execCount[E.c] = 0                             \* at most once
              /\ reqBegun                                       \* only if stop was requested
+             /\ (unsub = "ended" /\ fused) => phase[E.c] = "registering"   \* nothing is forwarded after unsubscribe() returned
              /\ \/ phase[E.c] = "registering" /\ E.t = owner[E.c]          \* inline in the constructor
                 \/ phase[E.c] \in {"registered", "deregistering"} /\ reqOpen[E.t] > 0
              /\ execCount' = [execCount EXCEPT ![E.c] = 1] /\ execOpenBy' = [execOpenBy EXCEPT ![E.c] = E.t]
-             /\ UNCHANGED <<phase, owner, reqOpen, reqBegun, reqEnded, falseSeen, mustInline, owed, qTrue, fused>>
+             /\ UNCHANGED <<phase, owner, reqOpen, reqBegun, reqEnded, falseSeen, mustInline, owed, qTrue, fused, unsub>>
 ExecEnd == /\ Is("ExecEnd") /\ execOpenBy[E.c] = E.t
            /\ execOpenBy' = [execOpenBy EXCEPT ![E.c] = 0]
-           /\ UNCHANGED <<phase, owner, execCount, reqOpen, reqBegun, reqEnded, falseSeen, mustInline, owed, qTrue, fused>>
+           /\ UNCHANGED <<phase, owner, execCount, reqOpen, reqBegun, reqEnded, falseSeen, mustInline, owed, qTrue, fused, unsub>>
 DeregBegin == /\ Is("DeregBegin") /\ phase[E.c] = "registered"
               /\ phase' = [phase EXCEPT ![E.c] = "deregistering"] /\ owner' = [owner EXCEPT ![E.c] = E.t]
-              /\ UNCHANGED <<execCount, execOpenBy, reqOpen, reqBegun, reqEnded, falseSeen, mustInline, owed, qTrue, fused>>
+              /\ UNCHANGED <<execCount, execOpenBy, reqOpen, reqBegun, reqEnded, falseSeen, mustInline, owed, qTrue, fused, unsub>>
 DeregEnd == /\ Is("DeregEnd") /\ phase[E.c] = "deregistering" /\ owner[E.c] = E.t
             /\ execOpenBy[E.c] \in {0, E.t}                   \* not running on another thread
             /\ phase' = [phase EXCEPT ![E.c] = "gone"]         \* ExecBegin is impossible from now on
-            /\ UNCHANGED <<owner, execCount, execOpenBy, reqOpen, reqBegun, reqEnded, falseSeen, mustInline, owed, qTrue, fused>>
+            /\ UNCHANGED <<owner, execCount, execOpenBy, reqOpen, reqBegun, reqEnded, falseSeen, mustInline, owed, qTrue, fused, unsub>>
 ReqBegin == /\ Is("ReqBegin")
             /\ reqOpen' = [reqOpen EXCEPT ![E.t] = @ + 1] /\ reqBegun' = TRUE
             /\ owed' = IF reqOpen[E.t] = 0
                        THEN [owed EXCEPT ![E.t] = {c \in Cbs : phase[c] = "registered" /\ execCount[c] = 0}]
                        ELSE owed
-            /\ UNCHANGED <<phase, owner, execCount, execOpenBy, reqEnded, falseSeen, mustInline, qTrue, fused>>
+            /\ UNCHANGED <<phase, owner, execCount, execOpenBy, reqEnded, falseSeen, mustInline, qTrue, fused, unsub>>
 ReqEnd == /\ Is("ReqEnd") /\ reqOpen[E.t] > 0
           /\ IF E.r = 0
              THEN /\ ~falseSeen                                \* exactly one caller is the first
@@ -79,15 +81,23 @@ ReqEnd == /\ Is("ReqEnd") /\ reqOpen[E.t] > 0
                   /\ \A c \in owed[E.t] : execCount[c] = 1 \/ phase[c] \in {"deregistering", "gone"}
                   /\ falseSeen' = TRUE
              ELSE /\ UNCHANGED falseSeen
-          /\ reqOpen' = [reqOpen EXCEPT ![E.t] = @ - 1] /\ reqEnded' = TRUE
-          /\ UNCHANGED <<phase, owner, execCount, execOpenBy, reqBegun, mustInline, owed, qTrue, fused>>
+          /\ reqOpen' = [reqOpen EXCEPT ![E.t] = @ - 1]
+          /\ reqEnded' = (reqEnded \/ E.r # 0 - 1 \/ unsub = "none")   \* an upstream request that ends after unsubscribe() began may not have been forwarded
+          /\ UNCHANGED <<phase, owner, execCount, execOpenBy, reqBegun, mustInline, owed, qTrue, fused, unsub>>
 \* stop_requested(): false before any request began, true once any request returned, never reverts
 Query == /\ Is("Query")
          /\ (E.r = 1) => reqBegun
          /\ (E.r = 0) => (~reqEnded /\ ~qTrue)
          /\ qTrue' = (qTrue \/ E.r = 1)
-         /\ UNCHANGED <<phase, owner, execCount, execOpenBy, reqOpen, reqBegun, reqEnded, falseSeen, mustInline, owed, fused>>
-Next == Reset \/ RegBegin \/ RegEnd \/ ExecBegin \/ ExecEnd \/ DeregBegin \/ DeregEnd \/ ReqBegin \/ ReqEnd \/ Query
+         /\ UNCHANGED <<phase, owner, execCount, execOpenBy, reqOpen, reqBegun, reqEnded, falseSeen, mustInline, owed, fused, unsub>>
+\* unsubscribe() of the adapter: once it has returned, the forwarding callback is not running - hence no callback of
+\* this source is executing on another thread on behalf of an upstream request
+UnsubBegin == /\ Is("UnsubBegin") /\ unsub = "none" /\ unsub' = "begun"
+              /\ UNCHANGED <<phase, owner, execCount, execOpenBy, reqOpen, reqBegun, reqEnded, falseSeen, mustInline, owed, qTrue, fused>>
+UnsubEnd == /\ Is("UnsubEnd") /\ unsub = "begun" /\ unsub' = "ended"
+            /\ \A c \in Cbs : execOpenBy[c] \in {0, E.t}
+            /\ UNCHANGED <<phase, owner, execCount, execOpenBy, reqOpen, reqBegun, reqEnded, falseSeen, mustInline, owed, qTrue, fused>>
+Next == UnsubBegin \/ UnsubEnd \/ Reset \/ RegBegin \/ RegEnd \/ ExecBegin \/ ExecEnd \/ DeregBegin \/ DeregEnd \/ ReqBegin \/ ReqEnd \/ Query
 Spec == Init /\ [][Next]_vars
 Track == TrackAt(l, Closed)
 Report == ReportTrace
